@@ -129,10 +129,45 @@ def extract(repo: Path) -> dict:
     # ---- (round 6) looking up a child of an imported object: the attributes `FortranBase.children` visits, in
     #      order, SUBLINK_TYPES, and what a fresh object of each ENTITIES class has under these names
     out["childrenOrder"], out["sublinkTypes"], out["classDefaults"] = _probe_children(xp, sf)
+    # ---- (round 6) the second look at every href of converted text: does it read a *relative* reference from the
+    #      working directory of the process?
+    out["treeProcessorReadsRelative"] = _probe_tree_processor()
     for (n, caught), (n2, ex) in zip(out["fetchErrors"], out["handlerExits"]):
         if n != n2 or caught != (ex != "uncaught"):
             raise LookupError(f"load_external_modules: {n} caught={caught} but handler exit {ex!r}")
     return out
+
+
+# --------------------------------------------------------------------------- probing the relative-links tree processor
+
+def _probe_tree_processor() -> bool:
+    """`MetaMarkdown.convert` on two plain Markdown links, run in a fresh directory T with the output directory
+    T/out and the page directory T/out/other: an absolute path below the output directory must come out relative
+    to the page (`../thing` - what the processor is for); a relative reference that, *read from the working
+    directory*, lies below the output directory either comes out rewritten (True) or as it was written (False)."""
+    import os
+    import re as _re
+    import tempfile
+    from ford._markdown import MetaMarkdown
+    cwd = os.getcwd()
+    with tempfile.TemporaryDirectory() as t:
+        T = Path(t).resolve()
+        try:
+            os.chdir(T)
+            md = MetaMarkdown(base_url=T / "out")
+            hrefs = []
+            for text in (f"[x]({T / 'out' / 'thing'})", "[x](out/sub/page.html)"):
+                m = _re.search(r'href="([^"]*)"', md.reset().convert(text, path=T / "out" / "other"))
+                hrefs.append(m.group(1) if m else None)
+        finally:
+            os.chdir(cwd)
+    if hrefs[0] != "../thing":
+        raise LookupError(f"relative-links tree processor: an absolute path below the output directory gives {hrefs[0]!r}")
+    if hrefs[1] == "../sub/page.html":
+        return True
+    if hrefs[1] == "out/sub/page.html":
+        return False
+    raise LookupError(f"relative-links tree processor: a relative reference gives {hrefs[1]!r}")
 
 
 # --------------------------------------------------------------------------- probing FortranBase.children (round 6)
@@ -655,6 +690,9 @@ def render(t: dict) -> str:
         "/-- `graphs.BaseNode.__init__`: the node's URL is used as it is when this holds, otherwise it is prefixed with",
         f"    `graph_data.parent_dir` ({t['nodeVerbatimSource']}) -/",
         f"def nodeVerbatim : NodeCond := {_lean_cond(t['nodeVerbatim'])}",
+        "/-- (round 6) `RelativeLinksTreeProcessor._fix_attrib`: is a relative `href` read as a path from the working",
+        "    directory of the process (probed; `false` with fixes/C16-relative-links-only-absolute-paths.diff) -/",
+        f"def treeProcessorReadsRelative : Bool := {'true' if t['treeProcessorReadsRelative'] else 'false'}",
         "/-- (round 6) the list attributes `FortranBase.children` chains, in the order it visits them (probed) -/",
         "def childrenOrder : List Str := [",
         ",\n".join(f"  {_lean_str(a)} /- {a} -/" for a in t["childrenOrder"]),
